@@ -138,6 +138,12 @@ def real_oracles(threads, r):
         if r.get("map") == "nonempty":
             bad.append(("futex-map-not-empty", "all threads finished but the address map still holds a node"))
     if v == "deadlock":
+        # every waiter a completed notify counted must eventually return 0; here nothing can move any more
+        for a in set(notified):
+            if notified.get(a, 0) > woken.get(a, 0):
+                bad.append(("futex-lost-wakeup",
+                            f"address {a}: notify calls returned {notified.get(a, 0)} in total but only {woken.get(a, 0)} waits "
+                            f"returned 0 and no thread can run any more: a counted waiter stays blocked ({r.get('detail', '')})"))
         for ti, st in enumerate(sts):
             if st != "blk" or ti >= len(ops):
                 continue
